@@ -35,6 +35,11 @@ rule("C07.t", "a parameter that defaults to None and takes numbers (callers pass
 rule("C04.g", "an option string is normalised the same way everywhere it is compared (target.lower() == ... at every site): the branch "
               "that solves a variant and the branch that reports its value must agree on when the variant is active", floor=1,
      props=["C04", "C03"])
+NEUTRAL = "a term that is only applied under a test of its own parameter is skipped exactly when it is zero (`p != 0`): a one-sided test " \
+          "(`p > 0`) drops the term for the other sign, although the set-up applies the parameter for every value"
+rule("C05.m", "storage: " + NEUTRAL, floor=1)
+rule("C06.l", "plant / CHP: " + NEUTRAL, floor=0)
+rule("C02.h", "contracts and transports: " + NEUTRAL, floor=0)
 rule("C11.h", "the JSON writer decides 'naive' by `tzinfo is None` (a None test), never by the truthiness of an offset "
               "(timedelta(0) is falsy: UTC would be saved as naive)", floor=1)
 rule("C09.f", "a numpy array created from one name is not assigned other names by item (fixed string width truncates them)", floor=1)
@@ -52,7 +57,7 @@ def _prop_rule(fn):
     return "C07.n"
 
 
-@analysis("siblings", ["C07.n", "C02.f", "C19.f", "C07.o", "C09.f", "C07.p", "C11.h", "C03.g", "C07.t", "C04.g"])
+@analysis("siblings", ["C07.n", "C02.f", "C19.f", "C07.o", "C09.f", "C07.p", "C11.h", "C03.g", "C07.t", "C04.g", "C05.m", "C06.l", "C02.h"])
 def run(ctx):
     p = ctx.p
     # ================================================================= C07.n decided branches
@@ -456,6 +461,32 @@ def run(ctx):
                    "given' - e.g. a default of 0 for steps outside all intervals is never filled in and the vector keeps NaN there"
                    % (name, why, au.short(bad[0].test, 50) if bad else ""), node=(bad[0] if bad else fn.node), ok_detail=why)
     ctx.require(n_t >= 8, "fewer than 8 optional numeric parameters found", rules=['C07.t'])
+
+    # ================================================================= C05.m / C06.l / C02.h neutral shortcuts
+    for fn in sorted(p.all_functions(), key=lambda f: f.qualname):
+        if fn.parent is not None or fn.cls is None or not p.is_subclass(fn.cls, "Asset"):
+            continue
+        rid = "C05.m" if fn.cls.name == "Storage" else ("C06.l" if p.is_subclass(fn.cls, "CHPAsset") else "C02.h")
+        for iff in [s0 for s0 in au.walk_stmts(fn.body) if isinstance(s0, ast.If) and not s0.orelse]:
+            t = iff.test
+            if not (isinstance(t, ast.Compare) and len(t.ops) == 1):
+                continue
+            side, other = t.left, t.comparators[0]
+            if au.const_num(side) is not None:
+                side, other = other, side
+            if au.const_num(other) is None or not (isinstance(side, ast.Attribute) and au.base_name(side) == "self" and au.path(side).count(".") == 1):
+                continue
+            # the body only adds terms that carry the tested parameter as a factor
+            terms = [x for x in iff.body if isinstance(x, ast.AugAssign) and isinstance(x.op, (ast.Add, ast.Sub))]
+            if not terms or len(terms) != len([x for x in iff.body if not isinstance(x, (ast.Pass, ast.Expr))]):
+                continue
+            if not all(any(au.U(y) == au.U(side) for y in au.walk_local(x.value)) for x in terms):
+                continue
+            neutral = isinstance(t.ops[0], ast.NotEq) and au.const_num(other) == 0
+            ctx.ob(rid, fn, "if %s: %s" % (au.short(t, 40), au.short(terms[0], 50)), neutral,
+                   "the term is applied only under `%s`; for the values that fail this test and are not zero (a negative %s - a drain - is a "
+                   "legal value that the set-up applies like any other) the term is silently dropped: the reported level leaves out the "
+                   "accumulated amount and drifts away from the physical level" % (au.short(t, 40), side.attr), node=iff)
 
     # ================================================================= C04.g one normalisation per option string
     n_g = 0
